@@ -518,6 +518,15 @@ def c07(ctx, replay):
     ctx.absorb(rep)
     rej, _ = trace_validate(ctx, "TracePool", "TracePool.cfg", jtrace, name="TracePool(bpool)")
     absorb_rejections(ctx, rej, "TracePool", jtrace, only=SIG_C07_TRACE)
+    # a transport that holds on to pending I/O for seconds after Close: teardown must neither force its locks nor hand buffers,
+    # flate objects and windows back to the pools while a read or write of the closed connection is still inside them
+    sconn, spool = ctx.path("stuckconn.ndjson"), ctx.path("stuckpool.ndjson")
+    rep = ctx.drive("stuck", ["-conn-trace", sconn, "-pool-trace", spool], timeout=600)
+    ctx.absorb(rep)
+    rej, _ = trace_validate(ctx, "TraceConn", "TraceConn.cfg", sconn, name="TraceConn(stuck transport)")
+    absorb_rejections(ctx, rej, "TraceConn", sconn, only={"forcelock-acquired-while-held", "read-step-without-read-lock", "lock-acquired-while-held"})
+    rej, _ = trace_validate(ctx, "TracePool", "TracePool.cfg", spool, name="TracePool(stuck transport)")
+    absorb_rejections(ctx, rej, "TracePool", spool, only=SIG_C07_TRACE)
     if not ctx.quick():
         repo_tests_traced(ctx, set(), only_pool=SIG_C07_TRACE)
         # pool events of the concurrent campaign (many connections in flight at once), under the same ownership rules
